@@ -2,6 +2,7 @@ package message
 
 import (
 	"bytes"
+	"io"
 
 	"github.com/ipfs/go-cid"
 	cbg "github.com/whyrusleeping/cbor-gen"
@@ -47,10 +48,32 @@ func VerifC10_RoundTrip() {
 	wire := buf.Bytes()
 	verif_Assert(len(wire) > 0 && wire[0] == 0x83+b2i(m.OrigPeer != ""), "3-field array without original peer, 4-field array with it")
 	var d Message
-	derr := d.UnmarshalCBOR(bytes.NewReader(wire))
+	var rd io.Reader = bytes.NewReader(wire)
+	if verif_Bool("streamArrivesOneByteAtATime") {
+		rd = &c10slowReader{data: wire} // network streams deliver what they have, not what was asked for
+	}
+	derr := d.UnmarshalCBOR(rd)
 	verif_Reach("decoded")
 	verif_Assert(derr == nil, "the encoding of a message decodes")
 	verif_Assert(c10equiv(m, &d), "the decoded message equals the original")
+}
+
+// c10slowReader returns at most one byte per Read call.
+type c10slowReader struct {
+	data []byte
+	pos  int
+}
+
+func (r *c10slowReader) Read(p []byte) (int, error) {
+	if r.pos >= len(r.data) {
+		return 0, io.EOF
+	}
+	if len(p) == 0 {
+		return 0, nil
+	}
+	p[0] = r.data[r.pos]
+	r.pos++
+	return 1, nil
 }
 
 func b2i(b bool) byte {
